@@ -967,6 +967,10 @@ def load_obligations(prop, tier):
                 obs.append(Ob(f"{prop}.gp.integration.n{nPe}.u{nu}.{form}", ob_load_integration, (nPe, nu, form), "P", (f_(SIMP, "_Simu.__Bc_Integration_Dim"),),
                               clause="nodal load at (e, n, u) == sum_p wJ[e,p] f_u(x_p) N_n(p) (nodal arrays: interpolated through N, scattered at the caller's nodes position by position); "
                                      "dofs == dof(connect[e,n], u) in the same order; for all numbers of selected elements and integration points", timeout=300))
+    for nPe in (2, 3, 4) + ((6, 8) if tier == "thorough" else ()):
+        for selected in (False, True):
+            obs.append(Ob(f"{prop}.gp.gausscoord.n{nPe}.{'selected' if selected else 'all'}", ob_gauss_coordinates, (nPe, selected), "P", (f_(GP, "_GroupElem.Get_GaussCoordinates_e_pg"),),
+                          clause="x_g[e, p] == sum_n N_n(xi_p) x[e, n] for every element, or for the caller's selection in the caller's order; all Ne, nPg, any number of selected elements", timeout=300))
     obs.append(Ob(f"{prop}.gp.canary.integration", ob_load_integration, (3, 2, "constant", True), "P", expect=REFUTED, clause="twice the load must be refuted", timeout=120))
     return obs
 
@@ -1651,6 +1655,64 @@ def ob_frame_element(dim, nPe, law, reflect=False, canary=False):
     want = gen.einsum("ka,lb,enamb->enkml", Qa, Qa, K.reshape(NE, nPe, dim, nPe, dim)).reshape(NE, nd, nd)
     check(Kq, want, f"stiffness of the turned element (dim {dim}, nPe {nPe}, {law} law{', reflected' if reflect else ''}) vs the turned stiffness", f"frame:K:{dim}:{nPe}:{law}:{reflect}")
     return Verdict(DISCHARGED, backend=BACKEND + "; rotation by its Cayley parameters", sub=nd * nd)
+
+
+class _SelConn:
+    """connect[elements]: the rows of the connectivity listed by the caller's selection, in the caller's order"""
+
+    def __init__(self, sel):
+        self.sel = sel
+
+
+class _ConnS(_Conn):
+    """a connectivity that may be restricted to a selection of elements"""
+
+    def __getitem__(self, idx):
+        return _SelConn(idx)
+
+
+class _TableS(_Table):
+    """nodal table gathered by the whole connectivity or by a restricted one: the contract gives both gathered arrays"""
+
+    def __init__(self, gathered, sel, gathered_sel):
+        super().__init__(gathered)
+        self.sel, self.gathered_sel = sel, gathered_sel
+
+    def __getitem__(self, idx):
+        if isinstance(idx, _SelConn):
+            if idx.sel is not self.sel:
+                raise Unsupported("a nodal table gathered by the connectivity of other elements than the selected ones")
+            return self.gathered_sel.copy()
+        return super().__getitem__(idx)
+
+
+NSEL = gen.Dim("Nsel")
+
+
+@_guard
+def ob_gauss_coordinates(nPe, selected):
+    """_GroupElem.Get_GaussCoordinates_e_pg from the AST, all Ne, nPg (and any number of selected elements): x_g[e, p, :] == sum_n N_n(xi_p) x[e, n, :] over the nodes of element e --
+    of every element, or of the caller's selection IN THE CALLER'S ORDER (row k of the result belongs to the k-th selected element, as the weights and connectivity the callers pair it with)"""
+    sp = gen.Space(dict(N=(NPG, 1, nPe), X=(NE, nPe, 3), Xs=(NSEL, nPe, 3)))
+    g, NPs, Fe = env(sp, "EasyFEA.FEM._group_elem")
+
+    class Sel:
+        size = NSEL
+    sel = Sel()
+    conn = _ConnS("local")
+    me = sx.Mock("self", Get_N_pg=lambda mt: sp.arr("N"), connect=_Conn(), _global_to_local_nodes=_Table(conn), coord=_TableS(sp.arr("X"), sel, sp.arr("Xs")), Ne=NE, nPe=nPe)
+    f = fn_of(GP, "_GroupElem.Get_GaussCoordinates_e_pg", g)
+    try:
+        got = f(me, "mass", sel) if selected else f(me, "mass")
+    except (TypeError, IndexError) as ex:
+        # the selection used otherwise than to restrict the connectivity (as a mask index, a sort key, ...): outside the contract of the stubs
+        raise Unsupported(f"the selection of elements is used in a way the gather contract does not cover: {type(ex).__name__}: {str(ex)[:100]}")
+    want = gen.einsum("pn,end->epd", sp.arr("N")[:, 0, :], sp.arr("Xs") if selected else sp.arr("X"))
+    lead = NSEL if selected else NE
+    if not bool(getattr(got, "fe", False)) or tuple(map(repr, got.shape)) != tuple(map(repr, (lead, NPG, 3))):
+        raise Refuted(f"Get_GaussCoordinates_e_pg returns {got!r}, expected a field of shape ({lead}, nPg, 3)", signature=f"gausscoord:{nPe}:{selected}:shape")
+    check(_plain(got), want, f"integration-point coordinates ({'selected elements' if selected else 'all elements'}, nPe {nPe})", f"gausscoord:{nPe}:{selected}")
+    return Verdict(DISCHARGED, backend=BACKEND, sub=3)
 
 
 @_guard
